@@ -85,6 +85,16 @@ def hand_cases():
     return [(t + "\n", s, None) for t, s in H]
 
 
+# valid C11 that a parser without symbol table reads differently from C (no parser error): recorded findings, keyed by shape
+BLIND = [
+    ("typedef-base-paren-suffix", "typedef int T;\nT (x[3]);\n", ("Variable", "x", "(Arr_(TD_T))")),
+    ("typedef-base-paren-suffix", "typedef int T;\nT (f(int a));\n", ("Function", "f", "(Fn_(TD_T)_[Int_S])")),
+    ("lone-typedef-param-before-brace", "typedef char *PT;\nlong (*(f8)(float p7))(PT) { return 0; }\n", ("Function", "f8", "(Fn_(Ptr_(Fn_Long_S_[(TD_PT)]))_[Float])")),
+    ("abstract-fn-declarator-typedef-param", "typedef char *PT;\nvoid f(int (PT [2]));\n", ("Function", "f", "(Fn_Void_[(Ptr/fn_(Fn_Int_S_[(Ptr/arr_(TD_PT))]))])")),
+    ("abstract-fn-declarator-typedef-param", "typedef int T;\nvoid f(int (T));\n", ("Function", "f", "(Fn_Void_[(Ptr/fn_(Fn_Int_S_[(TD_T)]))])")),
+]
+
+
 def run(ctx):
     proved = stages.lean_stage(ctx, "PsycheModel.Props.C07")
     stages.cxx_stage(ctx, "ndebug")
@@ -142,6 +152,12 @@ def run(ctx):
             ctx.notes.setdefault("declarator_tree_differs_from_printer_examples", [])
             if nast <= 3:
                 ctx.notes["declarator_tree_differs_from_printer_examples"].append({"text": text[-200:], "parser": f.get("ast", "")[-300:], "printer": east[-300:]})
+    # the recorded blind spots of symbol-table-free parsing, printed as known findings while they reproduce
+    blines = ["1 " + t.encode().hex() for _, t, _ in BLIND]
+    for (key, text, want), o in zip(BLIND, stages.run_harness(ctx, "declarators", blines)):
+        got = parse_syms(fields(o).get("syms", "-")) if o.startswith("ast=") else []
+        if want not in got:
+            ctx.report("blind:" + key, "without a symbol table %r is read differently from C: expected %s among the bound symbols, got %s" % (text, want, [g for g in got if g[0] != "Typedef"][:3]), {})
     ctx.cov.update({
         "evaluations": len(cases), "traces_validated_against_impl": len(cases) - ncrash, "distinct_nontrivial": len(cases) - ncrash, "exhaustive": False,
         "rule": "types drawn over {basic, void, tags, typedef names, qualified bases} x pointer (cv/restrict/_Atomic) x array x function (named/unnamed/variadic/(void)/() parameter lists, nested) to depth 3..7, printed by an independent type-to-declarator printer with 0-50% redundant parentheses, in file/block/member/typedef/prototype/function-definition contexts, 1-3 declarators per declaration; per program: the parser's declarator trees -> Lean model of the binder -> symbols, compared with the real binder's symbols and with the generator's expected (kind, name, type)",
